@@ -160,6 +160,7 @@ MULT_CLASSES = {
     "small": lambda r: r.randrange(1, 6),
     "mid": lambda r: r.randrange(6, 10 ** 4 + 1),
     "zero": lambda r: 0,
+    "big": lambda r: r.randrange(10 ** 4, 2 * 10 ** 5),
     "ceil": lambda r: U32MAX + r.randrange(-3, 3),
     "half": lambda r: (1 << 31) + r.randrange(-2, 3),
     "huge": lambda r: r.choice([1 << 32, (1 << 32) + 1, 1 << 40, r.randrange(1 << 32, 1 << 40)]),
